@@ -82,6 +82,15 @@ def run(rep, ctx):
     with rep.guard("R12.6"):
         from .. import symrules as _SR3
         _SR3.handed_out_objects_not_mutated(rep, ctx.model, "R12.6")
+    rep.rule("R12.7", "spglib is given the analysed structure unmodified with the analyzer's tolerance, and its standardised lattice / positions / types are used without a change of convention (shared with C05)")
+    with rep.guard("R12.7"):
+        from . import shared as _shb
+        _shb.spglib_boundary(rep, ctx.model, "R12.7")
+    rep.floor("R12.7", 7)
+    rep.rule("R12.8", "every tabulated normalizer is an automorphism of its group and an isometry of the lattice (the normalised cell is the same crystal in the same space group; shared with C05/C14)")
+    from . import shared as _shn
+    _shn.normalizer_tables(rep, ctx.tables, "R12.8", perm=True)
+    rep.floor("R12.8", 2400)
     rep.floor("R12.1", 230)
     rep.floor("R12.2", 5)
     rep.floor("R12.3", 8)
